@@ -1,6 +1,7 @@
 CONSTANTS
   Letters = {97}
   Extra = {}
+  BreakInLiterals = TRUE
 INIT JInit
 NEXT JNext
 CHECK_DEADLOCK FALSE
